@@ -1,6 +1,6 @@
 From Coq Require Import List NArith Bool Arith Permutation.
 Import ListNotations.
-Require Import MV.Common.Interleave MV.C06.Model MV.C06.Spec MV.C06.Proofs MV.C06.Proofs2 MV.C06.Proofs4 MV.C06.Proofs5.
+Require Import MV.Common.Interleave MV.C06.Model MV.C06.Spec MV.C06.Exec MV.C06.Proofs MV.C06.Proofs2 MV.C06.Proofs4 MV.C06.Proofs5 MV.C06.Proofs6 MV.C06.Sim MV.C06.Refine MV.C06.ExecProofs MV.C06.WithC03.
 Require Import MV.C06.Properties.
 
 Check (C06_invariant_every_schedule : forall (key : Type) (hash : key -> N) (keq : key -> key -> bool) (k : N), key_contract hash keq ->
@@ -36,7 +36,14 @@ Check (C06_refines_one_map_per_kind : forall (key : Type) (hash : key -> N) (keq
        /\ (forall kd', kd <> kd' -> abs (filter_shard r kd i f) kd' = abs r kd')) /\
     (forall kd i, (i < nshards k)%nat -> get_shard r kd i = s_band hash k (abs r kd) i)).
 Print Assumptions C06_refines_one_map_per_kind.
-Check (C06_listing_exact_partial : forall (key : Type) (hash : key -> N) (keq : key -> key -> bool) (k : N), key_contract hash keq ->
+Check (C06_refines_every_schedule : forall (key : Type) (hash : key -> N) (keq : key -> key -> bool) (k : N), key_contract hash keq ->
+  forall (ps : list (list (@op key))) (sched : list nat),
+    exists sr, exec (sstep hash keq k) site (init_sreg, map init_local ps) sched
+               = ((sr, snd (fst (exec (step hash keq k) site (init_config k ps) sched))),
+                  snd (exec (step hash keq k) site (init_config k ps) sched))
+               /\ Rel hash keq k (fst (fst (exec (step hash keq k) site (init_config k ps) sched))) sr).
+Print Assumptions C06_refines_every_schedule.
+Check (C06_listing_exact : forall (key : Type) (hash : key -> N) (keq : key -> key -> bool) (k : N), key_contract hash keq ->
   forall r : @reg key, Inv hash keq k r ->
     (forall (l : @local key) kd rest, pcl l = Run 0 [] -> todo l = OVisit kd :: rest ->
        solo hash keq k (nshards k) r l = Some (r, finish l (RList (abs r kd)))) /\
@@ -49,7 +56,37 @@ Check (C06_listing_exact_partial : forall (key : Type) (hash : key -> N) (keq : 
          /\ (forall kd', kd <> kd' -> abs r' kd' = abs r kd')
          /\ cnt keq (abs r' kd) key0 = 0%nat
          /\ (forall key1, keq key0 key1 = false -> cnt keq (abs r' kd) key1 = cnt keq (abs r kd) key1)) /\
-    (forall kd i f, (i < nshards k)%nat -> abs (filter_shard r kd i f) kd = s_filter_band hash k (abs r kd) i f) /\
-    (forall kd (f : @entry key -> bool),
-       fold_left (fun m j => s_filter_band hash k m j f) (seq 0 (nshards k)) (abs r kd) = filter f (abs r kd))).
-Print Assumptions C06_listing_exact_partial.
+    (forall (l : @local key) kd p rest, pcl l = Run 0 [] -> todo l = ORetain kd p :: rest ->
+       exists r', solo hash keq k (nshards k) r l = Some (r', finish l RUnit)
+         /\ abs r' kd = filter (fun e => p (fst e) (snd e)) (abs r kd)
+         /\ (forall kd', kd <> kd' -> abs r' kd' = abs r kd') /\ Inv hash keq k r') /\
+    (forall (l : @local key) rest, pcl l = Run 0 [] -> todo l = OClear :: rest ->
+       exists r', solo hash keq k (3 * nshards k) r l = Some (r', finish l RUnit)
+         /\ (forall kd, abs r' kd = []) /\ Inv hash keq k r')).
+Print Assumptions C06_listing_exact.
+Check (C06_spec_ok_on_model : forall c, consistent (okeys (case_keys c)) = true -> spec_ok c (run_case c) = true).
+Print Assumptions C06_spec_ok_on_model.
+Check (C06_spec_ok_sound : forall c o, spec_ok c o = true ->
+  consistent (okeys (snd (fst o))) = true /\
+  let x := fst (fst o) in
+  let tr := fst (fst (fst (fst x))) in
+  let s := run_spec c (map tid tr) in
+  fst (fst (fst (fst s))) = tr /\
+  Forall2 (Forall2 cres_equiv) (snd (fst (fst (fst s)))) (snd (fst (fst (fst x)))) /\
+  snd (fst (fst s)) = snd (fst (fst x)) /\
+  snd (fst s) = snd (fst x) /\
+  Forall2 (@Permutation (N * N)) (snd s) (snd x)).
+Print Assumptions C06_spec_ok_sound.
+Check (C06_key_contract_from_C03 : forall H, key_contract (real_hash H) (real_keq H)).
+Print Assumptions C06_key_contract_from_C03.
+Check (C06_instantiated_with_C03 : forall (H : list MV.C03.Model.bytes -> N) (k : N) (ps : list (list (@op real_key))) (sched : list nat),
+    let r := fst (fst (exec (step (real_hash H) (real_keq H) k) site (init_config k ps) sched)) in
+    InvAll (real_hash H) (real_keq H) k r /\
+    (forall kd key0, (cnt (real_keq H) (abs r kd) key0 <= 1)%nat) /\
+    (forall s, (scnt (all_entries r) s <= 1)%nat) /\
+    (forall kd key0, ncreate (real_keq H) (log r) kd key0
+                     = (nremove (real_keq H) (log r) kd key0 + cnt (real_keq H) (abs r kd) key0)%nat) /\
+    (forall newer kd k2 s2 mid k1 s1 older,
+       log r = newer ++ EvRet kd k2 s2 :: mid ++ EvRet kd k1 s1 :: older ->
+       real_keq H k1 k2 = true -> (forall ev, In ev mid -> is_remove (real_keq H) kd k1 ev = false) -> s1 = s2)).
+Print Assumptions C06_instantiated_with_C03.
